@@ -130,6 +130,7 @@ type Exec struct {
 	deferIdx   map[*ast.DeferStmt]int
 	inlineStack []*inlineFrame
 	pendingKeyVar *types.Var
+	entryReqs     []*Term // the translated preconditions (replay: judged on concrete inputs)
 	pendingIndVar *types.Var
 	identAlias  map[string]*types.Var // contract identifier -> local it was matched to (renamed local)
 	discardCall *ast.CallExpr // the call of the expression statement being executed (its results are discarded)
@@ -262,7 +263,7 @@ func (x *Exec) oblige(s *State, kind, label string, goal *Term, text, pos string
 			if kind == "ensures" {
 				rets = x.curRets
 			}
-			ob.Replay = x.buildReplaySpec(x.entryState, rets)
+			ob.Replay = x.buildReplaySpec(x.entryState, s, rets)
 			if ob.Replay == nil {
 				x.replayOff = true
 			}
@@ -401,8 +402,11 @@ func verifyFunction(u *Universe, fi *FuncInfo, c *Contract) (obls []*Obligation,
 	x.entryState = entry
 	// requires
 	env := x.envFor(st, entry, fi.Body.Pos())
+	x.entryReqs = nil
 	for _, r := range c.Requires {
-		st.assume(x.trBool(r.Expr, env))
+		rt := x.trBool(r.Expr, env)
+		x.entryReqs = append(x.entryReqs, rt)
+		st.assume(rt)
 	}
 	x.assumeGlobalAxioms(st)
 	for _, ga := range c.GhostAssigns {
